@@ -1,3 +1,3 @@
--- This module serves as the root of the `SLE` library.
--- Import modules here that should be built as part of the library.
-import SLE.Basic
+import SLE.Model.Disasm
+import SLE.Lemmas.Disasm
+import SLE.Props.C10
